@@ -8,6 +8,7 @@
 #include <nstd/Time.hpp>
 #include <nstd/String.hpp>
 #include <nstd/Future.hpp>
+#include <nstd/Signal.hpp>
 #include "sim.hpp"
 #include "driver.hpp"
 #include "net.hpp"
@@ -22,10 +23,10 @@
 using namespace sim;
 namespace sim { void setProcessorCount(int n); }
 
-enum Code { T_CREATE = 1, T_REMOVE, L_LISTEN, L_REMOVE, E_ADDR, E_HOST, E_REMOVE, C_PAIR, C_REMOVE, C_WRITE, C_SUSPEND, C_RESUME, S_INTERRUPT, S_WAIT, S_ACCEPTPOLICY,
+enum Code { T_CREATE = 1, T_REMOVE, L_LISTEN, L_REMOVE, E_ADDR, E_HOST, E_REMOVE, C_PAIR, C_REMOVE, C_WRITE, C_SUSPEND, C_RESUME, S_INTERRUPT, S_WAIT, S_ACCEPTPOLICY, S_QUIET,
             R_CONNECT, R_LISTEN, R_STALL, I_INTERRUPT, I_STALL, CODE_N };
 static const char* codeName[] = {"?", "timer.create", "timer.remove", "listen", "listener.remove", "connect.addr", "connect.host", "establisher.remove", "pair", "client.remove", "client.write", "client.suspend", "client.resume",
-  "interrupt(self)", "wait", "accept.policy", "remote.connect", "remote.listen", "remote.stall", "interrupter.interrupt", "interrupter.stall"};
+  "interrupt(self)", "wait", "accept.policy", "quiet_period", "remote.connect", "remote.listen", "remote.stall", "interrupter.interrupt", "interrupter.stall"};
 static const char* opName(int c) { return (c > 0 && c < CODE_N) ? codeName[c] : "?"; }
 
 enum Kind { K_TIMER, K_LISTENER, K_ESTAB, K_CLIENT, K_DRIVER };
@@ -60,6 +61,7 @@ struct Ctx {
   int peersTotal, peersDone; bool stopPeers;
   int unresolvedEstab;
   int tailTicks;
+  bool quiet, quietIntDone; int64_t quietDoneNs; int quietDelayUs; Signal* quietSig; bool wakerStop;
 };
 static Ctx C;
 
@@ -229,6 +231,9 @@ static void execOp(int code, int slot, int64_t arg, Ent* self) {
   case C_RESUME: { Ent* e = C.clientSlot[slot % 6]; if (e) { e->suspended = false; ((Server::Client*)e->handle)->resume(); } break; }
   case S_INTERRUPT: C.interruptsInvoked++; C.srv->interrupt(); C.interruptsCompleted++; C.lastInterruptDoneSeq = ++C.seq; probe("interrupt_from_callback"); break;
   case S_WAIT: { static const int w[] = {0, 1, 3, 10, 60, 400}; C.waitTicks = w[arg % 6]; break; }
+  case S_QUIET: // the driver timer removes itself: the loop now sleeps in the poll layer until a waker thread interrupts it
+    if (self == C.driver && !C.quiet && !C.scriptDone) { static const int us[] = {0, 1, 5, 20, 100, 1000}; C.quietDelayUs = us[arg % 6]; C.srv->remove(*(Server::Timer*)C.driver->handle); C.driver->removed = true; C.quiet = true; C.quietIntDone = false; probe("quiet_period"); C.quietSig->set(); }
+    break;
   }
 }
 
@@ -265,12 +270,27 @@ static void interrupterTask(void* a) {
   { NoPreempt np; C.peersDone++; }
 }
 
+static void wakerTask(void*) {
+  for (;;) {
+    C.quietSig->wait(); C.quietSig->reset();
+    if (C.wakerStop) return;
+    if (C.quietDelayUs) usleep(C.quietDelayUs);
+    { NoPreempt np; C.interruptsInvoked++; }
+    logEvent("waker_interrupt_invoke");
+    C.srv->interrupt();
+    { NoPreempt np; C.interruptsCompleted++; C.lastInterruptDoneSeq = ++C.seq; C.quietDoneNs = nowNs(); C.quietIntDone = true; }
+    logEvent("waker_interrupt_done");
+  }
+}
+
 static void mainTask(void*) {
   const RunSpec& s = *C.spec;
   simnet::setDefaultCapacity((size_t)simdrv::knob(s, "cap", 65536));
   simnet::setFailHook(failHook);
   C.srv = new Server;
-  C.driver = newEnt(K_DRIVER, 0); C.driver->interval = 1; C.driver->handle = C.srv->time(1, C.driver->tcb);
+  C.quietSig = new Signal;
+  int wakerId = spawn(wakerTask, 0, "waker");
+  C.driver = newEnt(K_DRIVER, 0); C.driver->interval = 1; { int64_t lo = Time::ticks(); C.driver->handle = C.srv->time(1, C.driver->tcb); C.driver->t0lo = lo; C.driver->t0hi = Time::ticks(); }
   int nremote = (int)simdrv::knob(s, "remotes", 1), nint = (int)simdrv::knob(s, "interrupters", 1);
   int tids[8], nt = 0;
   for (int r = 0; r < nremote; ++r) tids[nt++] = spawn(remoteTask, (void*)(intptr_t)r, "remote");
@@ -289,14 +309,21 @@ static void mainTask(void*) {
       if (C.returns > 1 && C.interruptsInvoked == C.interruptsCompleted && C.lastInterruptDoneSeq < C.runStartSeq[1]) fail("C14/run_returned_without_interrupt", "run() returned again although every interrupt() had completed before its previous invocation began");
       C.lastReturnSeq = ++C.seq; }
     if (C.finishing) break;
+    if (C.quiet) {
+      // promptness: once interrupt() has completed, an otherwise idle loop must return at once - not at the next unrelated time-out
+      // (simulated time only jumps when every thread sleeps, so 100 s cannot pass by computation)
+      if (C.quietIntDone && nowNs() - C.quietDoneNs > 100LL * 1000000000LL) fail("C14/interrupt_late", "run() returned %lld ms after interrupt() had completed while the loop was idle", (long long)((nowNs() - C.quietDoneNs) / 1000000));
+      if (C.quietIntDone) { C.quiet = false; C.driver = newEnt(K_DRIVER, 0); if (C.driver) { C.driver->interval = 1; int64_t lo = Time::ticks(); C.driver->handle = C.srv->time(1, C.driver->tcb); C.driver->t0lo = lo; C.driver->t0hi = Time::ticks(); } }
+    }
     probe("run_restarted");
   }
   C.stopped = true;
+  C.wakerStop = true; C.quietSig->set(); joinTask(wakerId);
   for (int i = 0; i < nt; ++i) joinTask(tids[i]);
   // a last interrupt issued by a late interrupter may be pending: harmless. tear down.
   for (int i = 0; i < C.nent; ++i) { Ent& e = C.ent[i]; if (e.kind != K_DRIVER && !e.removed && e.alive) removeEnt(&e); }
-  C.srv->remove(*(Server::Timer*)C.driver->handle); C.driver->removed = true;
-  delete C.srv; C.srv = 0;
+  if (C.driver && !C.driver->removed) { C.srv->remove(*(Server::Timer*)C.driver->handle); C.driver->removed = true; }
+  delete C.srv; C.srv = 0; delete C.quietSig; C.quietSig = 0;
   delete Future<void>::Private::_threadPool; Future<void>::Private::_threadPool = 0;   // joins the resolver workers inside the simulation
   typedef Map<uint32, Error::Private::Str> ErrMap;
   Error::Private::userErrorStrings.~ErrMap(); new (&Error::Private::userErrorStrings) ErrMap();   // process-lifetime per-thread cache: released here so that it is not mistaken for a leak
@@ -311,7 +338,7 @@ static void generate(RunSpec& s, int tier) {
   int nrem = (int)r(4), nint = (int)r(3);
   s.knobs["remotes"] = nrem; s.knobs["interrupters"] = nint; static const int caps[] = {16, 256, 4096, 65536}; s.knobs["cap"] = caps[r(4)];
   static const int pct[] = {0, 0, 10, 40}; s.knobs["epoll_fault_pct"] = pct[r(4)]; s.knobs["send_fault_pct"] = pct[r(4)]; s.knobs["conn_fault_pct"] = pct[r(4)]; s.knobs["dns_fault_pct"] = pct[r(4)]; s.knobs["eintr_pct"] = r(3) == 0 ? 5 : 0;
-  static const int synck[] = {1, 2, 3, 5}; s.knobs["sync_switch_log2"] = synck[r(4)]; static const int memk[] = {255, 255, 8, 5}; s.knobs["mem_switch_log2"] = memk[r(4)]; s.knobs["nproc"] = 1 + r(4);
+  static const int synck[] = {1, 2, 3, 5}; s.knobs["sync_switch_log2"] = synck[r(4)]; static const int memk[] = {255, 8, 5, 3}; s.knobs["mem_switch_log2"] = memk[r(4)]; s.knobs["nproc"] = 1 + r(4);
   int profile = (int)r(4);   // 0 mixed, 1 timer-heavy, 2 connection-heavy, 3 mixed
   int ns = 6 + (int)r(30);
   for (int i = 0; i < ns; ++i) {
@@ -320,7 +347,8 @@ static void generate(RunSpec& s, int tier) {
     if (profile == 1) o.code = k < 45 ? T_CREATE : k < 80 ? T_REMOVE : k < 90 ? S_WAIT : C_PAIR;
     else if (profile == 2) o.code = k < 14 ? L_LISTEN : k < 20 ? L_REMOVE : k < 34 ? E_ADDR : k < 46 ? E_HOST : k < 54 ? E_REMOVE : k < 62 ? C_PAIR : k < 74 ? C_REMOVE : k < 80 ? C_WRITE : k < 84 ? S_ACCEPTPOLICY : k < 92 ? S_WAIT : S_INTERRUPT;
     else o.code = k < 14 ? T_CREATE : k < 24 ? T_REMOVE : k < 32 ? L_LISTEN : k < 36 ? L_REMOVE : k < 43 ? E_ADDR : k < 49 ? E_HOST : k < 54 ? E_REMOVE : k < 63 ? C_PAIR : k < 72 ? C_REMOVE : k < 79 ? C_WRITE : k < 83 ? C_SUSPEND : k < 87 ? C_RESUME : k < 91 ? S_INTERRUPT : k < 97 ? S_WAIT : S_ACCEPTPOLICY;
-    if (o.code == T_CREATE && r(2)) o.a[1] = r(3);   // bias towards small equal intervals: coincident due times
+    if (o.code == T_CREATE && r(2)) o.a[1] = r(3);
+    if (r(12) == 0) { o.code = S_QUIET; o.a[3] = 0; }   // bias towards small equal intervals: coincident due times
     s.plan.push_back(o);
   }
   for (int q = 0; q < nrem; ++q) { int n = 1 + (int)r(6); for (int i = 0; i < n; ++i) { Op o; o.task = 1 + q; o.a[0] = (int64_t)r(6); o.a[1] = (int64_t)r(100000); o.a[2] = (int64_t)r(1000); o.a[3] = 0; uint64_t k = r(100); o.code = k < 45 ? R_CONNECT : k < 75 ? R_LISTEN : R_STALL; s.plan.push_back(o); } }
